@@ -48,6 +48,9 @@ pub struct Faults {
     /// Omit the `changed:` attribute from objects returned by `!m` (modern IRR databases do not
     /// carry it; `rpsl` 0.1.1 treats it as mandatory).
     pub omit_changed_attr: bool,
+    /// An as-set / route-set that exists but expands to nothing is answered with `C` (success, no
+    /// data) instead of `D` (key not found): servers differ here.
+    pub empty_set_is_success: bool,
 }
 
 #[derive(Clone, Debug, PartialEq, Eq)]
@@ -277,17 +280,18 @@ fn respond(sh: &Shared, q: &str) -> Resp {
                 _ => (param, false),
             };
             let name = name.trim().to_uppercase();
+            let data_or_empty = |s: String| if s.is_empty() && sh.faults.empty_set_is_success { ok() } else { data_or_d(s) };
             if db.as_sets.contains_key(&name) {
                 if recursive {
-                    data_or_d(join(flatten_as_set(db, &name).iter().map(|n| format!("AS{n}"))))
+                    data_or_empty(join(flatten_as_set(db, &name).iter().map(|n| format!("AS{n}"))))
                 } else {
-                    data_or_d(join(dedup(db.as_sets[&name].iter().map(as_member_str).collect())))
+                    data_or_empty(join(dedup(db.as_sets[&name].iter().map(as_member_str).collect())))
                 }
             } else if db.route_sets.contains_key(&name) {
                 if recursive {
-                    data_or_d(join(flatten_route_set(db, &name)))
+                    data_or_empty(join(flatten_route_set(db, &name)))
                 } else {
-                    data_or_d(join(dedup(db.route_sets[&name].iter().map(rs_member_str).collect())))
+                    data_or_empty(join(dedup(db.route_sets[&name].iter().map(rs_member_str).collect())))
                 }
             } else {
                 Resp::Bytes("D", b"D\n".to_vec())
